@@ -270,6 +270,7 @@ CHECKS = {
              "the tagged JSON must equal WfJson!AstJson, and a mutated partner must serialize differently iff its AstJson differs",
         assumptions=["std DefaultHasher is used as the Hash consumer"],
         stages=[
+            mc("aliases", "MC_C07.tla", "MC_C07.cfg"),
             lang("canon", "c07", 2500, 80000, ["--nctx", "1", "--depth", "3", "--mutate", "10"], shards=SH),
         ],
     ),
@@ -435,6 +436,7 @@ CHECKS = {
              "calls, against set/always/never list definitions registered for different types",
         assumptions=["SetMatcher is the harness's list matcher (membership in named sets)"],
         stages=[
+            mc("list-names", "MC_C17.tla", dict(quick="MC_C17_quick.cfg", thorough="MC_C17_thorough.cfg")),
             lang("lists", "rich", 4000, 120000, ["--nctx", "6", "--depth", "2", "--listpct", "70", "--badname", "30"], shards=SH),
             mc("histories", "MC_C08.tla", dict(quick="MC_C08_quick.cfg", thorough="MC_C08_thorough.cfg"), replay_cmd="replay-hist"),
             trace("list-histories", "Trace_Ctx", ["gen-hist", "--len", "50", "--listpct", "25"], 30, 800, shards=SH),
